@@ -1,5 +1,7 @@
 import TantivyModel.Driver.Proto
 import TantivyModel.Model.Grammar.Chars
+import TantivyModel.Model.Grammar.CharsLenient
+import TantivyModel.Model.Grammar.Agree
 /-!
 Line protocol of the C16 character layer.
 
@@ -59,6 +61,22 @@ def textOfHex (h : String) : Option Str :=
     | some s => some s.toList
     | none => none
   | none => none
+
+def showLOutcome : LOutcome → String
+  | .diverges => "diverges"
+  | .tree t e => "tree " ++ toString e ++ " " ++ ",".intercalate (showAst t)
+
+/-- `parsel <hex>` → `diverges` | `tree <number of errors> <Ast>` (the lenient grammar) -/
+def handleParseLenient (h : String) : String :=
+  match textOfHex h with
+  | some s => showLOutcome (parseLenient s)
+  | none => "bad-op"
+
+/-- `parse2 <hex>` → `<strict outcome>|<lenient outcome>|<featureFree 0/1>` -/
+def handleParseBoth (h : String) : String :=
+  match textOfHex h with
+  | some s => showOutcome (parseStrict s) ++ "|" ++ showLOutcome (parseLenient s) ++ "|" ++ showBool (featureFree s)
+  | none => "bad-op"
 
 def handleParse (h : String) : String :=
   match textOfHex h with
